@@ -59,8 +59,10 @@ def fault_scripts(rnd, quick):
         for op in ops:
             for k in range(1, n + 5):
                 for kind in (1, 2, 4):
-                    sc += mb + [head, 'store %d %s' % (n, ' '.join(map(str, img))),
-                           'fault %d %d' % (k, kind), op, 'reopen', 'validate', 'fetch']
+                    # the instance lives on after a reported I/O error: what it then says about the medium must be as true as
+                    # what a fresh instance says (validated before, so that nothing remembered from then can be reused)
+                    sc += mb + [head, 'store %d %s' % (n, ' '.join(map(str, img))), 'validate',
+                           'fault %d %d' % (k, kind), op, 'validate', 'fetch', 'reopen', 'validate', 'fetch']
         yield sc
 
 
